@@ -436,6 +436,10 @@ def analyse(repo):
             or 'apply_kwfilters(filterattrs, original_names)' not in ak or 'filterattrs.append((attr, id, val is None))' not in ak:
         raise Unknown('Query._apply_kwargs: the filters-key entry is not (apply_kwfilters, filterattrs, original_names) with filterattrs = (attr, id, val is None)')
     f['derivationKeyEntriesCarryArguments'] = True
+    # Query._get_translator: a hit is re-validated against the function vartypes and the pinned parameter values
+    gt = src(find_func(core, 'Query._get_translator'))
+    f['translatorHitRechecked'] = bool(_re.search(r'if all_func_vartypes != translator\.func_vartypes:\n\s+return \(?None, vars\.copy\(\)\)?', gt)
+                                       and _re.search(r'for key, val in translator\.fixed_param_values\.items\(\):\n\s+assert key in new_vars\n\s+if val != new_vars\[key\]:\n\s+database\._translator_cache\.pop\(query_key, None\)\n\s+return \(?None, vars\.copy\(\)\)?', gt))
     # create_extractors: is a hit re-validated against the classification of the called names in the new scope
     ce = find_func(asttr, 'create_extractors')
     ces = src(ce)
@@ -498,6 +502,8 @@ def render(f):
     lines.append('/-- `Query._process_lambda`: (lambda has arguments, order_by, effective original_names, label of the filters-key entry: 0 order_by / 1 where / 2 filter)')
     lines.append('    for filter / where / order_by called with a lambda with and without arguments (label expression evaluated from the source) -/')
     lines.append('def lambdaLabels : List (Bool × Bool × Bool × Nat) := [%s]' % ', '.join('(%s, %s, %s, %d)' % (b(r[0]), b(r[1]), b(r[2]), r[3]) for r in f['lambdaLabels']))
+    lines.append('/-- `Query._get_translator` rejects a hit whose function vartypes or pinned parameter values differ from the new query\'s -/')
+    lines.append('def translatorHitRechecked : Bool := %s' % b(f['translatorHitRechecked']))
     lines.append('/-- `Entity.flush` contains `query_results.clear()` -/')
     lines.append('def entityFlushClearsResults : Bool := %s' % b(f['entityFlushClearsResults']))
     lines.append('/-- `Query._aggregate` / `Query._actual_fetch` call `prepare_connection_for_query_execution()` before the lookup -/')
